@@ -279,3 +279,24 @@ def compiled_layer(ctx, pid, grammars=None, inputs=None, extra=(), tag="lrcompil
                                       {"grammar": cx[3] if cx else None, "request": req, "table_driven": imps[i], "recursive_ascent": asc[i]})
     ctx.coverage["compiled_layer"]["ascent_vs_table"] = asc_cmp
     return stats, dis, asc_cmp
+
+
+def replay(ctx, data):
+    """re-run one recorded failing input (grammar + request) on the real code and on the model"""
+    import tempfile
+    (exe,) = ctx.build_harness(["lrreplay"])
+    ctx.lean_build(["lpm_lr"])
+    out = os.path.join(ctx.scratch, "replay")
+    os.makedirs(out, exist_ok=True)
+    gfile = os.path.join(out, "g.lalrpop")
+    open(gfile, "w").write(data.get("grammar") or "")
+    req = data.get("request") or ""
+    rc, so, se = ctx.run_harness(exe, [gfile, data.get("algorithm") or "lane", data.get("start") or "N0", req, out])
+    print(so.strip())
+    if os.path.exists(os.path.join(out, "lrr.req")):
+        dis = ctx.correspond("replay", "lpm_lr", "lrr", outdir=out)
+        mod = open(os.path.join(out, "lrr.model")).read().strip().split("\n")
+        print("model / oracle:", mod[-1] if mod else None)
+        for d in dis:
+            ctx.failing_input(data.get("fingerprint", "replay"), f"replayed input still fails: {d['req']}",
+                              {"grammar": data.get("grammar"), "request": d["req"], "implementation": d["impl"], "proven_model": d["model"]})
